@@ -959,7 +959,7 @@ def generate(rng, tier, outdir):
     w.SHARD = 16  # the structural check enumerates the whole product space: keep shards small, they run in parallel
     # deterministic budget: a number of requests and a cap on the total number of subexperiments simulated
     max_cases = 200 if tier == "quick" else 1200
-    max_circuits = 5500 if tier == "quick" else 160000
+    max_circuits = 4500 if tier == "quick" else 160000
     t0 = time.time()
     ncirc = 0
     for spec in fixed_specs():
